@@ -235,6 +235,20 @@ class FunctionGrid(FixedGrid):
 
     def normalized(self, N):
         return self.normalized_fun(N)
+
+    def bounds_T(self, T_local, t0_local, k, T, N):
+        # The spacing has no structure to exploit: bound the interval itself
+        if self.localize_T:
+            yield (self.min <= (T_local[k] <= self.max), {})
+        else:
+            if self.min==0 and self.max==inf:
+                pass
+            else:
+                n = self.normalized(N)
+                yield (self.min <= (T*(n[k+1]-n[k]) <= self.max), {})
+        for e in FixedGrid.bounds_T(self, T_local, t0_local, k, T, N):
+            yield e
+
 class DensityGrid(FixedGrid):
     def __init__(self, density, integrator='cvodes',integrator_options=None,**kwargs):
         """
@@ -282,7 +296,20 @@ class DensityGrid(FixedGrid):
         res.append(1.0)
         self.cache[N] = res
         return res
-    
+
+    def bounds_T(self, T_local, t0_local, k, T, N):
+        # The spacing has no structure to exploit: bound the interval itself
+        if self.localize_T:
+            yield (self.min <= (T_local[k] <= self.max), {})
+        else:
+            if self.min==0 and self.max==inf:
+                pass
+            else:
+                n = self.normalized(N)
+                yield (self.min <= (T*(n[k+1]-n[k]) <= self.max), {})
+        for e in FixedGrid.bounds_T(self, T_local, t0_local, k, T, N):
+            yield e
+
 class DenseEdgesGrid(DensityGrid):
     def __init__(self, multiplier=10, edge_frac=0.1, **kwargs):
         interp = ca.interpolant('interp','bspline',[[0.0,edge_frac,1-edge_frac,1.0]],[multiplier,1.0,1.0,multiplier],{"algorithm":"smooth_linear"})
